@@ -218,6 +218,8 @@ def run(tier, seed, report):
                 u.kinds = ("str",)
                 u.pids = ["p", "pq", "q"]
                 u.toks = [contents.add(b"text content %d\n" % k * (k * 400 + 1)) for k in range(3)]
+                # what the display of a retrieve verb can mangle: CR / CRLF line ends, multi-byte text past the limit
+                u.toks += [contents.add(b"dos line\r\nmac line\runix line\n"), contents.add(("\u00e9" * 700).encode("utf-8"))]
                 u.formats = [None, "f1"]
                 w = {"store": 5, "store_data": 0.5, "tag": 0.5, "div": 0, "delete": 1, "retrieve": 0, "hex": 0, "smeta": 4,
                      "rmeta": 0, "dmeta": 0.5, "bad": 0}
